@@ -4,3 +4,5 @@ import EpsieModel.Chain
 import EpsieModel.Swap
 import EpsieModel.PTChain
 import EpsieModel.Sampler
+import EpsieModel.Tables
+import EpsieModel.Generated.Tables
